@@ -139,3 +139,62 @@ MUTANTS += [
     m("c02-init-valid-before-norm", ["C02"], F, "        self.norm = norm\n        self.valid = valid\n", "        self.valid = valid\n        self.norm = norm\n"),
     m("c02-shortcut-any-nvdim", ["C02"], F, "if nvdim == 1 and np.array_equal(np.shape(val), mesh.n):", "if np.array_equal(np.shape(val), mesh.n):"),
 ]
+
+MUTANTS += [
+    # ------------------------------------------------------------------ C04
+    m("c04-stencil-4pt-coeff", ["C04"], OP, "derivative_array[0] = 2 * array[0] - 5 * array[1] + 4 * array[2] - array[3]", "derivative_array[0] = 2 * array[0] - 4 * array[1] + 3 * array[2] - array[3]"),
+    m("c04-stencil-right-index", ["C04"], OP, "2 * array[-1] - 5 * array[-2] + 4 * array[-3] - array[-4]", "2 * array[-1] - 5 * array[-2] + 4 * array[-3] - array[-5]"),
+    m("c04-kernel", ["C04"], OP, "np.convolve(array, [1, -2, 1], \"same\")", "np.convolve(array, [1, -2, 2], \"same\")"),
+    m("c04-threshold-4", ["C04"], OP, "if len(array) >= 4:", "if len(array) >= 3:"),
+    m("c04-threshold-5", ["C04"], OP, "if len(array) >= 4:", "if len(array) >= 5:"),
+    m("c04-edge-order", ["C04"], OP, "derivative_array = np.gradient(array, dx, edge_order=2)", "derivative_array = np.gradient(array, dx, edge_order=1)"),
+    m("c04-short-run", ["C04"], OP, "if len(array) < order + 1:", "if len(array) < order:"),
+    m("c04-dx-power", ["C04"], OP, "derivative_array = derivative_array / dx**2", "derivative_array = derivative_array / dx"),
+    m("c04-run-bounds", ["C04"], OP, "array[loc[i] + 1 : loc[i + 1]]", "array[loc[i] : loc[i + 1]]"),
+    m("c04-scatter-invalid", ["C04"], OP, "idx = np.where(np.invert(valid))[0]", "idx = np.where(valid)[0]"),
+    m("c04-nonlinear", ["C04"], OP, "derivative_array[0] = array[0] - 2 * array[1] + array[2]", "derivative_array[0] = array[0] - 2 * array[1] + array[2] + 1e-30"),
+    m("c04-diff-cell-axis", ["C04"], F, "field.mesh.cell[direction_idx],\n", "field.mesh.cell[0],\n"),
+    m("c04-diff-valid-ones", ["C04"], F, "np.ones_like(field.valid, dtype=bool)", "np.zeros_like(field.valid, dtype=bool)"),
+    m("c04-diff-pad-width", ["C04"], F, "field = self.pad({direction: (1, 1)}, mode=\"wrap\")", "field = self.pad({direction: (1, 0)}, mode=\"wrap\")"),
+    m("c04-diff-pad-mode", ["C04"], F, "field = self.pad({direction: (1, 1)}, mode=\"wrap\")", "field = self.pad({direction: (1, 1)}, mode=\"edge\")"),
+    m("c04-diff-unpadded-mask", ["C04"], F, "valid = field.valid if restrict2valid else", "valid = self.valid if restrict2valid else"),
+    m("c04-diff-drops-unit", ["C04"], F, "            unit=self.unit,\n            valid=self.valid,\n", "            valid=self.valid,\n", anchor="def diff(self, direction, order=1, restrict2valid=True):"),
+    m("c04-diff-order3", ["C04"], F, "if order not in (1, 2):\n            raise NotImplementedError(f\"Derivative of {order=} is not implemented.\")", "if order not in (1, 2, 3):\n            raise NotImplementedError(f\"Derivative of {order=} is not implemented.\")"),
+    m("c04-pad-mesh-widths", ["C04", "C07"], F, "padded_mesh = self.mesh.pad(pad_width)", "padded_mesh = self.mesh.pad({k: (w[1], w[0]) for k, w in pad_width.items()})"),
+]
+
+MUTANTS += [
+    # ------------------------------------------------------------------ C05
+    m("c05-curl-swap-x", ["C05"], F, "curl_x = getattr(self, self._r_dim_mapping[z]).diff(y) - getattr(\n            self, self._r_dim_mapping[y]\n        ).diff(z)",
+      "curl_x = getattr(self, self._r_dim_mapping[y]).diff(z) - getattr(\n            self, self._r_dim_mapping[z]\n        ).diff(y)"),
+    m("c05-curl-positional", ["C05"], F, "curl_y = getattr(self, self._r_dim_mapping[x]).diff(z)", "curl_y = getattr(self, self.vdims[0]).diff(z)"),
+    m("c05-curl-order", ["C05"], F, "return curl_x << curl_y << curl_z", "return curl_x << curl_z << curl_y"),
+    m("c05-div-by-position", ["C05"], F, "getattr(self, vdim).diff(self.vdim_mapping[vdim]) for vdim in self.vdims",
+      "getattr(self, vdim).diff(dim) for vdim, dim in zip(self.vdims, self.mesh.region.dims)"),
+    m("c05-laplace-order1", ["C05"], F, "sum(self.diff(dim, order=2) for dim in self.mesh.region.dims)", "sum(self.diff(dim, order=1) for dim in self.mesh.region.dims)"),
+    m("c05-laplace-skip-dim", ["C05"], F, "                    getattr(self, vdim).diff(dim, order=2)\n                    for dim in self.mesh.region.dims\n", "                    getattr(self, vdim).diff(dim, order=2)\n                    for dim in self.mesh.region.dims[:-1]\n"),
+    m("c05-grad-reversed", ["C05"], F, "derivatives = [self.diff(dim) for dim in self.mesh.region.dims]", "derivatives = [self.diff(dim) for dim in reversed(self.mesh.region.dims)]"),
+    m("c05-grad-accepts-vectors", ["C05"], F, "        if self.nvdim != 1:\n            msg = f\"Cannot compute gradient", "        if self.nvdim < 1:\n            msg = f\"Cannot compute gradient"),
+    m("c05-div-dimension", ["C05"], F, "if self.nvdim != self.mesh.region.ndim:", "if self.nvdim < self.mesh.region.ndim:"),
+    m("c05-rmap-direction", ["C05"], F, "reversed_mapping = {val: key for key, val in self.vdim_mapping.items()}", "reversed_mapping = {key: val for key, val in self.vdim_mapping.items()}"),
+    m("c05-relabel-drops-mapping", ["C05"], F, "new_vdim: self.vdim_mapping[old_vdim]\n                for new_vdim, old_vdim in zip(vdims, old_vdims)", "new_vdim: self.vdim_mapping[old_vdim]\n                for new_vdim, old_vdim in zip(vdims, reversed(old_vdims))"),
+    m("c05-grad-stack-order", ["C05"], F, "        for derivative in derivatives[1:]:\n            result = result << derivative\n\n        return result\n\n    @property\n    def div(self):", "        for derivative in derivatives[1:]:\n            result = derivative << result\n\n        return result\n\n    @property\n    def div(self):"),
+]
+
+MUTANTS += [
+    # ------------------------------------------------------------------ C06
+    m("c06-integrate-cell-axis", ["C06"], F, "res_array = np.sum(self.array, axis=axis) * self.mesh.cell[axis]", "res_array = np.sum(self.array, axis=axis) * self.mesh.cell[0]"),
+    m("c06-integrate-dv", ["C06"], F, "return sum_ * self.mesh.dV", "return sum_ * self.mesh.cell[0]"),
+    m("c06-cumulative-half", ["C06"], F, "tmp_array = self.array / 2", "tmp_array = self.array / 1"),
+    m("c06-cumulative-shift", ["C06"], F, "left_cells = dfu.assemble_index(slice(None), ndim, {axis: slice(None, -1)})", "left_cells = dfu.assemble_index(slice(None), ndim, {axis: slice(1, None)})"),
+    m("c06-cumulative-axis", ["C06"], F, "np.cumsum(self.array, axis=axis)[left_cells]", "np.cumsum(self.array, axis=0)[left_cells]"),
+    m("c06-cumulative-mesh", ["C06"], F, "mesh = self.mesh if cumulative else self.mesh.sel(direction)", "mesh = self.mesh.sel(direction) if cumulative else self.mesh"),
+    m("c06-mean-reduced-mesh-axis", ["C06"], F, "axis[i] = self.mesh.region._dim2index(d)", "axis[i] = mesh.region._dim2index(d)"),
+    m("c06-mean-single-axis", ["C06"], F, "value=self.array.mean(axis=axis),", "value=self.array.mean(axis=axis - 1),"),
+    m("c06-mean-duplicates", ["C06"], F, "            if len(direction) != len(set(direction)):\n", "            if False:\n"),
+    m("c06-integrate-abs", ["C06"], F, "sum_ = np.sum(self.array, axis=tuple(range(self.mesh.region.ndim)))", "sum_ = np.sum(np.abs(self.array), axis=tuple(range(self.mesh.region.ndim)))"),
+    m("c06-integrate-component-axis", ["C06"], F, "sum_ = np.sum(self.array, axis=tuple(range(self.mesh.region.ndim)))", "sum_ = np.sum(self.array, axis=tuple(range(self.mesh.region.ndim + 1)))"),
+    m("c06-integrate-position", ["C06"], F, "return sum_ * self.mesh.dV", "return sum_ * self.mesh.dV + 1e-30 * self.mesh.region.pmin[0]"),
+    m("c06-module-integrate", ["C06"], OP, "return field.integrate(direction=direction, cumulative=cumulative)", "return field.integrate(direction=direction)"),
+    m("c06-dv", ["C06"], M, "return np.prod(self.cell).item()", "return np.sum(self.cell).item()"),
+]
